@@ -9,7 +9,7 @@ import SqlObjVerif.Model.DrvUtil
 * `alt <col index> <v>`    `idx <number of index columns> <k>=<v>,…`
 
 clause: `none` or comma-separated prefix form `tt` `cmp,<op>,<a>,<b>` `isnull,<a>` `notnull,<a>` `and,<e>,<e>`
-`or,<e>,<e>` `not,<e>`; operands `c<i>` `cid` `l<int>` `g`.
+`or,<e>,<e>` `not,<e>` `andn,<k>,<e>…` `orn,<k>,<e>…` (the n-ary helpers); operands `c<i>` `cid` `l<int>` `g`.
 order: `nodefault` | `none` | `one=<arg>` | `many=<arg>;…`; arg = `s<string>` | `e<oexpr>`; oexpr = `d`* then
 `f<i>` | `fid` | `k<raw>`.
 op: `order=<order>` `rev` `dist` `filter=<clause>`.
@@ -38,6 +38,12 @@ def pCmp : String → Option CmpOp
   | "eq" => some .eq | "ne" => some .ne | "lt" => some .lt | "le" => some .le | "gt" => some .gt | "ge" => some .ge
   | _ => none
 
+def pN (p : List String → Option (Expr × List String)) : Nat → List String → Option (List Expr × List String)
+  | 0, r => some ([], r)
+  | k + 1, r => match p r with
+    | some (e, r) => (pN p k r).map fun (l, r) => (e :: l, r)
+    | none => none
+
 def pExprToks : Nat → List String → Option (Expr × List String)
   | 0, _ => none
   | fuel + 1, toks =>
@@ -62,6 +68,18 @@ def pExprToks : Nat → List String → Option (Expr × List String)
         | none => none
       | none => none
     | "not" :: r => (pExprToks fuel r).map fun (a, r) => (.not a, r)
+    | "andn" :: k :: r =>
+      match k.toNat? with
+      | some k => match pN (pExprToks fuel) k r with
+        | some (l, r) => (nary .and l).map fun e => (e, r)
+        | none => none
+      | none => none
+    | "orn" :: k :: r =>
+      match k.toNat? with
+      | some k => match pN (pExprToks fuel) k r with
+        | some (l, r) => (nary .or l).map fun e => (e, r)
+        | none => none
+      | none => none
     | _ => none
 
 /-- `none` ↦ Python None -/
@@ -145,7 +163,20 @@ def showOne : OneRes Int → String
   | .indexError => "IndexError"
   | .typeError => "TypeError"
 
-def showRows (l : List Row) : String := "rows" ++ String.join (l.map fun r => " " ++ toString r.id)
+def showRows (l : List Row) : String :=
+  "rows" ++ String.join ((iterSelect l).map fun
+    | some r => " " ++ toString r.id
+    | none => " None")
+
+def showOneOpt : OneRes (Option Int) → String
+  | .value (some x) => "one " ++ toString x
+  | .value none => "None"
+  | .default => "default"
+  | .notFound => "NotFound"
+  | .integrity => "Integrity"
+  | .pyNone => "None"
+  | .indexError => "IndexError"
+  | .typeError => "TypeError"
 
 def aggMethod? : String → Option AggMethod
   | "sum" => some .sum | "min" => some .min | "max" => some .max | "avg" => some .avg | _ => none
@@ -161,7 +192,7 @@ def runOps (st : St) : Sel → List String → String
         | none => "sql-error")
     else if t == "one" || t == "one0" then
       (queryForSelect s).text sch ++ " | " ++ (match evalSelect sch st.db s with
-        | some rows => showOne (getOne (t == "one0") (rows.map (·.id)))
+        | some rows => showOneOpt (getOne (t == "one0") ((iterSelect rows).map (·.map (·.id))))
         | none => "sql-error")
     else if t == "count" then
       let p := countPlan s
